@@ -62,7 +62,7 @@ def cases(tier, seed):
                 for L, a, b in zip(s["layers"], tops, bots):
                     L["thickness"] = round(b - a, 2)
             s["kw"]["dz"] = dz
-        iw = gen.iwc_depth_spec(rng, s) if i % 2 else gen.iwc_spec(rng, s)
+        iw = gen.iwc_depth_spec(rng, s, bottom=True) if i % 2 else gen.iwc_spec(rng, s)
         gw = None
         if i % 6 == 3:
             # a water table changes a field-capacity *request* only: every other request - a
